@@ -106,8 +106,7 @@ DriftStep ==
 (* Verdict at return: properties evaluated on the recorded results against *)
 (* the monitor.                                                            *)
 (***************************************************************************)
-RECURSIVE SumSeq(_)
-SumSeq(s) == IF s = <<>> THEN 0 ELSE Head(s) + SumSeq(Tail(s))
+SumSeq(s) == FoldSeq(LAMBDA x, y : x + y, 0, s)       \* (a recursive definition overflows the Java stack on long runs)
 AddsAt(k) == SelectSeq(mon, LAMBDA r : r.lvl = k)
 NObs == Len(E.Nl)                      \* number of levels in the returned results
 CoarseOf(s) == ((s * 7) % 5) + 1
